@@ -285,3 +285,12 @@ func OpenPlugin(filepath string) {
 		}
 	}
 }
+
+// activeLength returns the number of active elements of a vector like
+// sequence: the elements in front of the fill pointer when the vector has one.
+func activeLength(v slip.VectorLike) int {
+	if vec, ok := v.(*slip.Vector); ok {
+		return len(vec.AsList())
+	}
+	return v.Length()
+}
